@@ -81,7 +81,8 @@ def run_impl(c):
                     upd = {'_generate': [{'key': op[1], 'processes': {}, 'topology': {}, 'initial_state': {}}]}
                     live.append(op[1])
                 elif op[0] == 'add':
-                    upd = {'_add': [{'key': op[1], 'state': {'mass': 9.0}}]}
+                    # the added state clears a variable on purpose (None) and leaves `memo` to its default
+                    upd = {'_add': [{'key': op[1], 'state': {'mass': 9.0, 'partner': None}}]}
                     live.append(op[1])
                 elif op[0] == 'delete':
                     upd = {'_delete': [op[1]]}
@@ -98,6 +99,11 @@ def run_impl(c):
                     elif after[k][1] != val:
                         problems.append('update %d (%s %s): untouched compartment %r changed from %r to %r'
                                         % (i, op[0], '/'.join(op[1:]), k, val, after[k][1]))
+                if op[0] == 'add':
+                    got = store.get_path(('agents', op[1])).get_value()
+                    if got != {'mass': 9.0, 'partner': None, 'memo': {}}:
+                        problems.append('update %d (add %s): the new compartment holds %r, given mass 9.0 and partner '
+                                        'None, memo left to its default {}' % (i, op[1], got))
                 if op[0] == 'divide':
                     n1, n2 = store.get_path(('agents', op[2])), store.get_path(('agents', op[3]))
                     m1, m2 = n1.get_path(('memo',)).get_value(), n2.get_path(('memo',)).get_value()
@@ -119,7 +125,8 @@ def run_impl(c):
 def oracle(c, ob, rng):
     if 'err' in ob:
         return [('the history raised: ' + ob['err'], 'frame-raised')]
-    return [(p, 'daughters-share-object' if 'daughter' in p else 'frame-broken') for p in ob['problems'][:2]]
+    return [(p, 'daughters-share-object' if 'daughter' in p else
+             'added-state-not-kept' if 'the new compartment holds' in p else 'frame-broken') for p in ob['problems'][:2]]
 
 
 def nontrivial(c, ob):
